@@ -41,6 +41,9 @@ func runC11(c *Ctx) {
 	runC11ClaimFill(c)
 	runC11SwallowedErrors(c)
 	runC11OutcomeKept(c)
+	runC11ReservedForIdentity(c)
+	borrow(c, "O13", "C17", "O2", "every handed-out mutex is counted", "a waiter that is not counted loses the group mutex when the holder releases: a concurrent sync then runs inside the reservation critical section and deletes the reservation pod of a bind that is about to succeed")
+	borrow(c, "O13", "C17", "O2", "reference count changed once", "the per-group mutex is shared by the bind and the syncs of that group only while every user is counted")
 	runC11LabelRemoval(c)
 	runC11ImmediateDelete(c)
 	borrow(c, "O7", "C17", "O2", "paired with ReleaseMutex", "a failed reservation step must not leave the group mutex held: the rollback of the same attempt would block forever and the request would never be reported failed")
@@ -629,4 +632,36 @@ func runC11OutcomeKept(c *Ctx) {
 		}
 	}
 	c.Floor("O12", "MPT failure branches with a rollback", n, 1)
+}
+
+// runC11ReservedForIdentity (O14): a ResourceClaim is reserved for a POD INSTANCE. UpsertReservedFor leaves the list
+// alone only when it already holds this very pod — same name AND same UID; an entry of an earlier incarnation with
+// the same name (left behind by a failed bind, which the binder does not roll back — finding F9) must not pass for
+// it, or the new pod is bound while the claim is not reserved for it.
+func runC11ReservedForIdentity(c *Ctx) {
+	f := c.Anchor("O14", "pkg/common/resources", "", "UpsertReservedFor")
+	if f == nil {
+		return
+	}
+	n := 0
+	for _, b := range f.Blocks {
+		ret, ok := b.Instrs[len(b.Instrs)-1].(*ssa.Return)
+		if !ok || !insideLoopBody(b) {
+			continue
+		}
+		n++
+		has := func(fld string) func(FactSet) bool {
+			return func(s FactSet) bool {
+				_, ok := hasFact(s, func(ft Fact) bool {
+					return ft.Pol && ft.T.Op == "bin" && ft.T.Name == "==" && len(ft.T.Args) == 2 && ft.T.Args[0].lastField() == fld && ft.T.Args[1].lastField() == fld
+				})
+				return ok
+			}
+		}
+		okN := c.Fx.allPathsSatisfy(ret, has("Name"))
+		okU := c.Fx.allPathsSatisfy(ret, has("UID"))
+		c.Check(okN && okU, "O14", "RET", funcKey(f)+": 'already reserved' means the same pod name and the same pod UID", instrPos(ret), "ref.Name == pod.Name ∧ ref.UID == pod.UID",
+			fmt.Sprintf("the claim is taken for already reserved without comparing the pod's %s: a stale entry of another pod instance stands in for this pod, the bind reports success and the pod is bound to a claim that is not reserved for it", map[bool]string{true: "UID", false: "name"}[okN]))
+	}
+	c.Floor("O14", "RET early returns of UpsertReservedFor", n, 1)
 }
